@@ -308,6 +308,7 @@ type plane struct {
 	pm      *radius.PolicyManager
 	egress  *ebpf.Map
 	ingress *ebpf.Map
+	stats   *ebpf.Map
 }
 
 func newPlane(t testing.TB, c *bpfnative.Client) *plane {
@@ -324,14 +325,61 @@ func newPlane(t testing.TB, c *bpfnative.Client) *plane {
 		inconclusive("cannot create kernel map %s: %v", mapStats, err)
 	}
 	t.Cleanup(func() { p.egress.Close(); p.ingress.Close(); stats.Close() })
+	p.stats = stats
+	p.resetManager()
+	return p
+}
+
+// resetManager replaces the control plane by a new qos.Manager (and policy manager) attached to the
+// current maps.
+func (p *plane) resetManager() {
 	p.pm = radius.NewPolicyManager()
 	p.pm.LoadDefaultPolicies()
-	p.mgr, err = qos.NewManager(qos.ManagerConfig{Interface: "verif0"}, p.pm, zap.NewNop())
+	mgr, err := qos.NewManager(qos.ManagerConfig{Interface: "verif0"}, p.pm, zap.NewNop())
 	if err != nil {
-		t.Fatalf("qos.NewManager: %v", err)
+		inconclusive("qos.NewManager: %v", err)
 	}
-	p.mgr.VerifSetMaps(p.egress, p.ingress, stats)
-	return p
+	p.mgr = mgr
+	p.mgr.VerifSetMaps(p.egress, p.ingress, p.stats)
+}
+
+// restartDataPlane models Manager.Stop followed by Manager.Start: Start loads a new collection, i.e.
+// new, EMPTY qos_egress / qos_ingress maps, while the manager object (and whatever it tracks) lives on.
+// The runner's copies are emptied as well.
+func (p *plane) restartDataPlane() {
+	oldE, oldI := p.egress, p.ingress
+	var err error
+	if p.egress, err = p.c.NewKernelMap(mapEgress, 64); err != nil {
+		inconclusive("cannot create kernel map %s: %v", mapEgress, err)
+	}
+	if p.ingress, err = p.c.NewKernelMap(mapIngress, 64); err != nil {
+		inconclusive("cannot create kernel map %s: %v", mapIngress, err)
+	}
+	p.mgr.VerifSetMaps(p.egress, p.ingress, p.stats)
+	oldE.Close()
+	oldI.Close()
+	if err := p.c.ClearMaps(mapEgress, mapIngress); err != nil {
+		inconclusive("ClearMaps: %v", err)
+	}
+}
+
+// kernelBucket reads the bucket the TC program of dir would look up for ip straight from the kernel map.
+func (p *plane) kernelBucket(dir int, ip [4]byte) (bucket, bool) {
+	m := p.egress
+	if dir == dirIngress {
+		m = p.ingress
+	}
+	v, err := m.LookupBytes(datapathKey(ip))
+	if err != nil {
+		inconclusive("kernel map lookup: %v", err)
+	}
+	if v == nil {
+		return bucket{}, false
+	}
+	if len(v) != bucketSz {
+		inconclusive("kernel map value of %d bytes", len(v))
+	}
+	return parseBucket(v), true
 }
 
 // tokenUnit is the number of units of the bucket's `tokens` field per byte (1 when tokens are bytes).
